@@ -211,7 +211,7 @@ func (fc *fnCtx) storeTarget(i *ssa.Store) string {
 		return st.Field(fa.Field).Name()
 	}
 	if a, ok := i.Addr.(*ssa.Alloc); ok {
-		return a.Comment
+		return fc.contractName(a.Comment)
 	}
 	return ""
 }
